@@ -1,6 +1,7 @@
 #pragma once
 
 #include <crab/domains/abstract_domain.hpp>
+#include <crab/domains/backward_assign_operations.hpp>
 #include <crab/domains/interval.hpp>
 #include <crab/support/debug.hpp>
 #include <crab/support/os.hpp>
@@ -754,16 +755,16 @@ public:
   void backward_apply(arith_operation_t op, const variable_t &x,
                       const variable_t &y, const variable_t &z,
                       const value_partitioning_domain_t &invariant) override {
-    CRAB_WARN(domain_name(), " does not implement backward operations");
+    BackwardAssignOps<value_partitioning_domain_t>::apply(*this, op, x, y, z, invariant);
   }
   void backward_apply(arith_operation_t op, const variable_t &x,
                       const variable_t &y, number_t k,
                       const value_partitioning_domain_t &invariant) override {
-    CRAB_WARN(domain_name(), " does not implement backward operations");
+    BackwardAssignOps<value_partitioning_domain_t>::apply(*this, op, x, y, k, invariant);
   }
   void backward_assign(const variable_t &x, const linear_expression_t &e,
                        const value_partitioning_domain_t &invariant) override {
-    CRAB_WARN(domain_name(), " does not implement backward operations");
+    BackwardAssignOps<value_partitioning_domain_t>::assign(*this, x, e, invariant);
   }
 
   DEFAULT_SELECT(value_partitioning_domain_t)
@@ -1883,16 +1884,16 @@ public:
   void backward_apply(arith_operation_t op, const variable_t &x,
                       const variable_t &y, const variable_t &z,
                       const this_type &invariant) override {
-    CRAB_WARN(domain_name(), " does not implement backward operations");
+    BackwardAssignOps<this_type>::apply(*this, op, x, y, z, invariant);
   }
   void backward_apply(arith_operation_t op, const variable_t &x,
                       const variable_t &y, number_t k,
                       const this_type &invariant) override {
-    CRAB_WARN(domain_name(), " does not implement backward operations");
+    BackwardAssignOps<this_type>::apply(*this, op, x, y, k, invariant);
   }
   void backward_assign(const variable_t &x, const linear_expression_t &e,
                        const this_type &invariant) override {
-    CRAB_WARN(domain_name(), " does not implement backward operations");
+    BackwardAssignOps<this_type>::assign(*this, x, e, invariant);
   }
 
   DEFAULT_SELECT(this_type)
